@@ -303,6 +303,15 @@ func (p *Profile) Generate(r *vk.Rand) (*Config, []string, []Op) {
 			}
 			ops = append(ops, Op{Kind: "publish", C: slot, QoS: 2, Dup: true, PID: vk.Pick(r, st.pendingQ2[slot]), Topic: vk.Pick(r, p.Topics), Hold: true})
 		case "pubrel":
+			if st.connected[slot] && p.CollidePct > 0 && r.Chance(p.CollidePct) {
+				// PUBREL carrying an id the broker has outstanding towards this client (or a retransmission for a completed exchange)
+				if r.Chance(60) {
+					ops = append(ops, Op{Kind: "pubrel", C: slot, Collide: true})
+				} else {
+					ops = append(ops, Op{Kind: "pubrel", C: slot, PID: uint16(30001 + r.Intn(6))})
+				}
+				continue
+			}
 			if !st.connected[slot] || len(st.pendingQ2[slot]) == 0 {
 				continue
 			}
@@ -359,7 +368,7 @@ func (p *Profile) Generate(r *vk.Rand) (*Config, []string, []Op) {
 			if len(p.TickDelta) > 0 {
 				d = vk.Pick(r, p.TickDelta)
 			}
-			ops = append(ops, Op{Kind: "tick", Delta: d})
+			ops = append(ops, Op{Kind: "tick", Delta: d, N: len(ops) % 2}) // N selects the order of the housekeeping sweeps
 		}
 	}
 	return cfg, slotIDs, ops
@@ -418,6 +427,7 @@ func RunCase(cfg *Config, slotIDs []string, ops []Op, trace bool, opt *SimOption
 
 // finalChecks runs end-of-history rules (C23 stream well-formedness at quiescence).
 func (s *Sim) finalChecks() {
+	s.sysTopicsCheck()
 	for _, sl := range s.Slots {
 		if sl.Conn == nil {
 			continue
